@@ -221,6 +221,9 @@ class AI:
                 return variant
             if adt.endswith("OverflowError") or adt.endswith("DivideByZeroError"):
                 return ("errval",)
+            if not ks:
+                # a field-less enum value handed around inside the implementation (e.g. which operation an error names)
+                return ("enum", adt, variant)
             raise Undet("aggregate %s" % adt)
         if t == "rec":
             base = self.ev(ks[0], env)
